@@ -41,6 +41,15 @@ long env_distance__pE_pE (Elem *first, Elem *last);
 long env_distance__pcE_pcE (const Elem *first, const Elem *last);
 
 
+/* narrow size_type (8-bit) variants */
+Elem *env_allocate__pA_uc (struct Alloc *a, unsigned char n);
+Elem *env_allocate__pA_uc_pcv (struct Alloc *a, unsigned char n, const void *hint);
+void env_deallocate__pA_pE_uc (struct Alloc *a, Elem *p, unsigned char n);
+const unsigned char *env_min__pcuc_pcuc (const unsigned char *a, const unsigned char *b);
+void env_swap__puc_puc (unsigned char *a, unsigned char *b);
+Elem *env_fill_n__pE_uc_pcE (Elem *first, unsigned char n, const Elem *val);
+Elem *env_copy_n__pcE_uc_pE (const Elem *first, unsigned char n, Elem *d);
+
 /* caller's iterators and generator (C15) */
 _Bool env_op_eq__pcII_pcII (const struct InputIt *a, const struct InputIt *b);
 const Elem *env_op_deref__pII (struct InputIt *it);
